@@ -13,7 +13,7 @@ import (
 
 // C22 — Application settings (ALPS) are exchanged consistently.
 func TestC22(t *testing.T) {
-	r := mon.New("C22", "ALPS-capable targets (parrots carrying application_settings on either code point, randomized/custom specs that drew ALPS) x configured ApplicationSettings maps (absent, empty, 1 B, 4 KB) x ALPN choice; the hooked server appends an application_settings extension to its real EncryptedExtensions (H1, before the transcript) and reads the client's EncryptedExtensions into its transcript (H9, with RequestClientCert so the client Finished is verified over it). Oracle: PeerApplicationSettings equals the server's bytes, the client EE carries the same code point and the client's configured settings for the selected protocol, the handshake completes; ALPS under TLS 1.2 or without ALPN => abort, or completion with empty PeerApplicationSettings and no client EE. distinct = (target family, code point, settings shape, scenario)")
+	r := mon.New("C22", "ALPS-capable targets (parrots carrying application_settings on either code point, randomized/custom specs that drew ALPS) x configured ApplicationSettings maps (absent, empty, 1 B, 4 KB) x ALPN choice; the hooked server appends an application_settings extension to its real EncryptedExtensions (H1, before the transcript) and reads the client's EncryptedExtensions into its transcript (H9, with RequestClientCert so the client Finished is verified over it). Oracle: PeerApplicationSettings equals the server's bytes, the client EE carries the same code point and the client's configured settings for the selected protocol, the handshake completes; ALPS under TLS 1.2 or without ALPN => the client aborts. distinct = (target family, code point, settings shape, scenario)")
 	defer r.Finish(t)
 	var targets []Target
 	targets = append(targets, ParrotTargets(false)...)
@@ -184,13 +184,11 @@ func TestC22(t *testing.T) {
 				r.Violation(sig, fmt.Sprintf("%s: client EncryptedExtensions carries %d settings bytes for %q, configured %d (%s)", j.t.Name, len(got.Data), j.proto, len(want), j.settings), rep)
 			}
 		default:
-			// rejection, or completion without any effect
+			// the statement says the client REJECTS application settings below TLS 1.3 or without
+			// ALPN: the handshake must fail, not complete while ignoring them
 			if h.ClientErr == nil {
-				r.Count("alps_invalid_completed_without_effect", 1)
-				if len(h.CState.PeerApplicationSettings) != 0 {
-					sig["kind"] = "alps_accepted_out_of_context"
-					r.Violation(sig, fmt.Sprintf("%s: application settings accepted (%d bytes exposed) in scenario %s", j.t.Name, len(h.CState.PeerApplicationSettings), j.scenario), rep)
-				}
+				sig["kind"] = "alps_out_of_context_not_rejected"
+				r.Violation(sig, fmt.Sprintf("%s: the server sent application settings in scenario %s and the client completed the handshake (%d bytes exposed)", j.t.Name, j.scenario, len(h.CState.PeerApplicationSettings)), rep)
 			} else {
 				r.Count("alps_invalid_rejected", 1)
 			}
